@@ -519,6 +519,9 @@ _COMBINATORS = {
     "std::option::Option::unwrap_or_else": ("option", {0: ("unit-call", None), 1: ("payload", None)}),
     "std::option::Option::ok_or_else":     ("option", {0: ("unit-call-wrap", "Err"), 1: ("wrap", "Ok")}),
     "std::option::Option::or_else":        ("option", {0: ("unit-call", None), 1: ("wrap", "Some")}),
+    "std::option::Option::is_some_and":    ("option", {0: ("constbool", 0), 1: ("call", None)}),
+    "std::result::Result::is_ok_and":      ("result", {0: ("call", None), 1: ("constbool", 0)}),
+    "std::result::Result::is_err_and":     ("result", {0: ("constbool", 0), 1: ("call", None)}),
     # three arguments: (x, default, closure)
     "std::result::Result::map_or":         ("result", {0: ("call", None), 1: ("default", None)}),
     "std::option::Option::map_or":         ("option", {0: ("default", None), 1: ("call", None)}),
@@ -547,8 +550,8 @@ def _lower_combinator(F, f, raw, blk, t):
         # `.map(Type::constructor)`: a function of this crate passed by name
         g = F.fns.get(t["args"][1]["fn"]) or next((h for h in F.fns.values() if strip_generics(h.path) == strip_generics(t["args"][1]["fn"])), None)
         fn_item = g is not None
-    if g is None or ((g.path in inventory() or strip_generics(g.path) in inventory()) and not colliding_closure(F, g)):
-        return False
+    if g is None or (not fn_item and (g.path in inventory() or strip_generics(g.path) in inventory()) and not colliding_closure(F, g)):
+        return False          # (a function passed by name is called, not looked through: that is the same for a reference function)
     x = t["args"][0]
     if x["k"] == "c" or x["pl"].get("p"):
         return False
@@ -595,6 +598,9 @@ def _lower_combinator(F, f, raw, blk, t):
             arm_blocks[vi] = new_block(st, {"t": "goto", "to": exit_to, "ln": ln})
         elif act == "none":
             st.append({"s": "assign", "lhs": dest, "rv": {"r": "agg", "kind": {"adt": "std::option::Option", "variant": "None", "vi": 0}, "a": []}, "ln": ln, "x": False})
+            arm_blocks[vi] = new_block(st, {"t": "goto", "to": exit_to, "ln": ln})
+        elif act == "constbool":
+            st = [{"s": "assign", "lhs": dest, "rv": {"r": "use", "a": [{"k": "c", "t": "bool", "v": wrapv, "s": "true" if wrapv else "false"}]}, "ln": ln, "x": False}]
             arm_blocks[vi] = new_block(st, {"t": "goto", "to": exit_to, "ln": ln})
         elif act == "default":
             st = [{"s": "assign", "lhs": dest, "rv": {"r": "use", "a": [copy.deepcopy(default_op)]}, "ln": ln, "x": False}]
@@ -849,6 +855,17 @@ def inline_function(F, f, cm, done, depth=0):
             continue
         if t.get("callee") and "for_each" in t["callee"] and _lower_for_each(F, Fn(raw, F), raw, blk, t):
             inlined.append("<lowered for_each>")
+            continue
+        if (t.get("callee") or "").endswith("bool>::then_some") and len(t["args"]) == 2 and t["to"] is not None and t["to"] >= 0 and not t["dest"].get("p"):
+            # `cond.then_some(v)`: Some(v) where cond holds, None where it does not
+            ln = t.get("ln")
+            some_b, none_b = len(blocks), len(blocks) + 1
+            blocks.append({"b": some_b, "cleanup": False, "src": blk.get("src"), "st": [{"s": "assign", "lhs": copy.deepcopy(t["dest"]), "rv": {"r": "agg", "kind": {"adt": "std::option::Option", "variant": "Some", "vi": 1}, "a": [copy.deepcopy(t["args"][1])]}, "ln": ln, "x": False}],
+                           "term": {"t": "goto", "to": t["to"], "ln": ln}})
+            blocks.append({"b": none_b, "cleanup": False, "src": blk.get("src"), "st": [{"s": "assign", "lhs": copy.deepcopy(t["dest"]), "rv": {"r": "agg", "kind": {"adt": "std::option::Option", "variant": "None", "vi": 0}, "a": []}, "ln": ln, "x": False}],
+                           "term": {"t": "goto", "to": t["to"], "ln": ln}})
+            blk["term"] = {"t": "switch", "on": copy.deepcopy(t["args"][0]), "arms": [[0, none_b]], "otherwise": some_b, "ln": ln, "lowered": "then_some"}
+            inlined.append("<lowered then_some>")
             continue
         if strip_generics(t.get("callee") or "") in _COMBINATORS and _lower_combinator(F, Fn(raw, F), raw, blk, t):
             inlined.append("<lowered %s>" % strip_generics(t["callee"]).split("::")[-1])
